@@ -4,7 +4,7 @@ From stdpp Require Import gmap.
 From Coq Require Import ZArith.
 From V Require Import Base.Res Sched.LedgerModel Sched.StmtModel Sched.GangModel Sched.CycleModel Sched.LedgerInvP
                       Sched.GangLemmas Sched.GangLemmasInv Sched.GangLemmasStmt Sched.GangLemmasCycle Sched.GangLemmasMain
-                      Sched.CycleCodec.
+                      Sched.CycleCodec Sched.GangValid Sched.SubGroupModel Sched.SubGroupLemmas Sched.GangLemmasEvict.
 Open Scope Z_scope.
 
 (* 1. the counts the gang plugin reads from TaskStatusIndex are the counts over the task list *)
@@ -114,3 +114,52 @@ Example C01_ex_theorem_applies :
   binds_ok (w_sess (world_of c)) (w_sess (run (cc_eps c) (world_of c) (cc_cops c))) /\ length (binds_of c) = 3%nat.
 Proof. exact ex_theorem_applies. Qed.
 Print Assumptions C01_ex_theorem_applies.
+
+(* ---------- extension: sub-group policies ---------- *)
+
+(* 6. JobReady / JobPipelined of the gang plugin for a job WITH sub-group policies (gang.go 191-219:
+   CheckTaskReady && CheckSubJobReady && IsReady): the policy-less conclusions and, for every policy
+   with MinSubGroups <> 0, at least that many sub-groups with >= SubGroupSize occupied slots, counted
+   over the sub-group's task list *)
+Theorem C01_gang_ready_sub_spec h sg : job_inv h (sg_job sg) ->
+  (gang_job_ready_sub h sg = true <-> gang_cond session_ready h (sg_job sg) /\ sub_groups_cond session_ready h sg) /\
+  (gang_job_pipelined_sub h sg = true <-> gang_cond session_pipelined h (sg_job sg) /\ sub_groups_cond session_pipelined h sg).
+Proof. exact (gang_ready_sub_spec h sg). Qed.
+Print Assumptions C01_gang_ready_sub_spec.
+
+Theorem C01_gang_ready_sub_sound h sg : job_inv h (sg_job sg) -> gang_job_ready_sub h sg = true ->
+  gang_cond session_ready h (sg_job sg) /\
+  forall g m, sg_min_subs sg !! g = Some m -> m <> 0 ->
+    m <= subs_with sg g (fun sj => sj_min sj <=? count_tasks session_ready (tasks_in h (sj_tasks sj))).
+Proof. exact (gang_ready_sub_sound h sg). Qed.
+Print Assumptions C01_gang_ready_sub_sound.
+
+Example C01_ex_sg_incomplete :
+  let '(h, sg) := ex_sg Pending in
+  gang_job_ready h (sg_job sg) = true /\ gang_job_ready_sub h sg = false /\
+  subs_with sg 1 (sub_ready h) = 1 /\ gang_job_valid_sub h sg = 0.
+Proof. exact ex_sg_incomplete. Qed.
+Print Assumptions C01_ex_sg_incomplete.
+
+Example C01_ex_sg_complete :
+  let '(h, sg) := ex_sg Allocated in
+  gang_job_ready_sub h sg = true /\ subs_with sg 1 (sub_ready h) = 2.
+Proof. exact ex_sg_complete. Qed.
+Print Assumptions C01_ex_sg_complete.
+
+Example C01_ex_sg_pipelined :
+  let '(h, sg) := ex_sg Pipelined in
+  gang_job_ready_sub h sg = false /\ gang_job_pipelined_sub h sg = true.
+Proof. exact ex_sg_pipelined. Qed.
+Print Assumptions C01_ex_sg_pipelined.
+
+(* ---------- extension: preempt / reclaim ---------- *)
+
+(* 7. a history over the Statement / Session operations WITHOUT Statement.Allocate, Session.Allocate and
+   RecoverOperations (what preempt and reclaim are made of: Pipeline, Evict, Merge, Commit, Discard),
+   started with no Allocate operation in any statement, adds nothing to the bind log *)
+Theorem C01_evict_ops_no_bind eps ops s :
+  Forall evict_alphabet ops -> no_alloc_ops s ->
+  binds (StmtModel.run eps s ops) = binds s /\ no_alloc_ops (StmtModel.run eps s ops).
+Proof. exact (evict_ops_no_bind eps ops s). Qed.
+Print Assumptions C01_evict_ops_no_bind.
